@@ -70,8 +70,10 @@ HB = ["0", 0, None, False, False]
 LOGON = ["A", 0, None, False, False]
 
 
-def scn(name, tasks, pre=(), st=ST_ACTIVE, role=1, treq=False, oracle=True):
-    return {"name": name, "st": st, "role": role, "treq": treq, "pre": list(pre), "tasks": tasks, "oracle": oracle}
+def scn(name, tasks, pre=(), st=ST_ACTIVE, role=1, treq=False, oracle=True, holes=()):
+    """holes: numbers of outbound journal rows deleted after the pre-history (a pruned / damaged journal)."""
+    return {"name": name, "st": st, "role": role, "treq": treq, "pre": list(pre), "tasks": tasks, "oracle": oracle,
+            "holes": list(holes)}
 
 
 def scenarios(tier):
@@ -97,6 +99,11 @@ def scenarios(tier):
     S.append(scn("resend(0,0) clamped + sender", [["in", "resend", 0, 0, []], ["send", [D(9)]]], pre=[D(1), HB, D(3)]))
     S.append(scn("resend(-3,0) alone", [["in", "resend", -3, 0, []]], pre=[D(1), D(2)]))
     S.append(scn("resend beyond + sender", [["in", "resend", 7, 0, []], ["send", [D(9)]]], pre=[D(1), D(2)]))
+    S.append(scn("resend over journal hole + sender", [["in", "resend", 1, 0, []], ["send", [D(9)]]],
+                 pre=[D(1), D(2), D(3), D(4)], holes=[2]))
+    S.append(scn("resend over holes alone", [["in", "resend", 1, 0, [5]]], pre=[D(1), D(2), HB, D(4), D(5), D(6)], holes=[1, 4]))
+    S.append(scn("resend bounded + sender", [["in", "resend", 1, 2, []], ["send", [D(9)]]], pre=[D(1), HB, D(3), D(4)]))
+    S.append(scn("resend bounded beyond alone", [["in", "resend", 2, 9, []]], pre=[D(1), D(2), HB]))
     S.append(scn("resend + sender", [["in", "resend", 1, 0, []], ["send", [D(9)]]], pre=[D(1), D(2), D(3)]))
     S.append(scn("resend + sender x 2", [["in", "resend", 2, 0, []], ["send", [D(8), D(9)]]], pre=[D(1), D(2), HB]))
     S.append(scn("resend + heartbeat probe", [["in", "resend", 1, 0, []], ["hb"]], pre=[D(1), D(2)]))
@@ -144,8 +151,9 @@ def model_task(t):
 
 
 def model_request(s, sched):
-    return "[[%d,%d,%d,[%s]],[%s],[%s]]" % (
+    return "[[%d,%d,%d,[%s],[%s]],[%s],[%s]]" % (
         s["st"], s["role"], 1 if s["treq"] else 0, ",".join(sx_msg(m) for m in s["pre"]),
+        ",".join(str(h) for h in s.get("holes", [])),
         ",".join(model_task(t) for t in s["tasks"]), ",".join(str(c) for c in sched))
 
 
@@ -351,6 +359,9 @@ class Impl:
     async def prehistory(self):
         for m in self.s["pre"]:
             await self.conn.send_msg(self.mk(m))
+        for h in self.s.get("holes", []):
+            self.journal.cursor.execute("DELETE FROM message WHERE seqNo = ? AND direction = 1", (h,))
+        self.journal.conn.commit()
         self.conn._connection_state = self._State(self.s["st"])
         self.conn._test_req_id = 12345 if self.s["treq"] else None
         self.auto = False
@@ -579,10 +590,11 @@ def oracle(s, obs, extra):
     want = {}
     for f in new:
         want.setdefault(f[0], f)
-    if rows != [[k, want[k]] for k in sorted(want)]:
+    holes = set(s.get("holes", []))
+    if rows != [[k, want[k]] for k in sorted(want) if k not in holes]:
         bad.append("journal rows %r differ from the messages sent %r" % (rows, sorted(want.items())))
     for f in wire:
-        if f[2] and f[0] not in want:
+        if f[2] and (f[0] not in want or f[0] in holes):
             bad.append("retransmission %r has no journal row" % (f,))
             break
     if any(e[0] == "SET" for e in extra["events"]):
